@@ -32,7 +32,7 @@ inductive Ev
   | disc (p : Nat)
   | replay (now : Int) (p : Nat) (out : List OutObs) (dmg : Option Damage)   -- dmg: only during this replay (probe)
   | rotate (newFile : Option Int)                                            -- rotate / stop
-  | timer (now : Int) (deleted : List Int)
+  | timer (now : Int) (deleted : List Int) (outs : List (List OutObs))       -- outs: what was queued for A, B, C
   | ack (p : Nat) (v : Int)
   | recv (p : Nat) (ts : Int) (accepted : Bool)
   | damage (d : Damage)                                                      -- setbytes / crash k
@@ -199,7 +199,7 @@ def specStep (sp : SpecSt) (st : Step) : Option Clause × SpecSt :=
     match newFile with
     | none => (none, sp')
     | some nm => (none, { sp' with files := sp'.files ++ [⟨nm, sp'.cur⟩], cur := [], curSize := 0, curTorn := false })
-  | .timer now deleted =>
+  | .timer now deleted _ =>
     let gone := sp.files.filter (fun f => deleted.contains f.name)
     let needed := gone.any (fun f => f.es.any (fun g => g.intact && [0, 1, 2].any (fun p =>
       related p && decide (g.e.ts > lpos sp.pos p) &&
@@ -216,6 +216,53 @@ def specStep (sp : SpecSt) (st : Step) : Option Clause × SpecSt :=
   | .damage d => (none, applyDamage d sp')
   | .drop => (none, { sp' with dropped := true })
   | .restart => (none, { sp' with conn := [false, false, false] })
+
+/-! ## confirmations (F-C12c)
+
+  A `log::SetLogPosition` tells the peer "I have everything you sent up to here"; the peer then neither replays
+  nor keeps older events.  It must therefore never carry a position beyond the one up to which messages were
+  actually received from that peer (`remote_log_position`).  This clause is evaluated on its own (not inside
+  `specStep`), so that its failures never hide — and are never hidden by — the other clauses. -/
+
+/-- How a confirmation is wrong: it is the name of a log file ReplayLog was replaying (the shape recorded as
+    F-C12c, apilistener.cpp `log_position = file.first`), or anything else. -/
+inductive ConfirmBad
+  | replayFileName
+  | other
+  deriving DecidableEq, Repr
+
+def ConfirmBad.name : ConfirmBad → String
+  | .replayFileName => "replay_file_name" | .other => "other"
+
+def setPosValues : List OutObs → List Int
+  | [] => []
+  | .l v :: r => v :: setPosValues r
+  | _ :: r => setPosValues r
+
+/-- The positions ReplayLog's file names stand for at time `now`: the rotated files and `current` (now + 1 s). -/
+def replayFileNames (sp : SpecSt) (now : Int) : List Int :=
+  sp.files.map (fun f => f.name * usec) ++ [(now + usec) / usec * usec]
+
+/-- Clause `confirmation_not_beyond_received` on one observed step (positions as they were before the step). -/
+def confirmStep (sp : SpecSt) (st : Step) : Option ConfirmBad :=
+  match st.ev with
+  | .replay now p out _ =>
+    let beyond := (setPosValues out).filter (fun v => decide (v > rpos sp.pos p))
+    if beyond.isEmpty then none
+    else if beyond.all (fun v => (replayFileNames sp now).contains v) then some .replayFileName
+    else some .other
+  | .timer _ _ outs =>
+    if [0, 1, 2].any (fun p => (setPosValues (outs.getD p [])).any (fun v => decide (v > rpos sp.pos p))) then some .other
+    else none
+  | _ => none
+
+/-- The clause over a whole trace (ghost state advanced by `specStep`): index and kind of the first failure. -/
+def confirmTrace : SpecSt → List Step → Nat → Option (Nat × ConfirmBad)
+  | _, [], _ => none
+  | sp, st :: r, i =>
+    match confirmStep sp st with
+    | some k => some (i, k)
+    | none => confirmTrace (specStep sp st).2 r (i + 1)
 
 /-- The whole trace: the first violated clause with the index of the step. -/
 def specTrace : SpecSt → List Step → Nat → Option (Nat × Clause)
